@@ -34,17 +34,7 @@ LEVEL_NOTE = ('Trusted: TLC, RhumbLattice.tla, the long-double textbook formulas
               'west-going tie for lon2 - lon1 = -180; see notes/C09.md.')
 TECHNIQUE = 'TLA+ lattice model + TLC enumeration, spec-to-code replay, TLC trace validation'
 
-# Known findings of C09 (static, structural: law-name prefix + input-class field written by the driver from the INPUTS only).
-# The west-going tie (law rh-tie-east, field tie = west180) is recorded in /verif/known_findings.json by the coordinator.
-KNOWN_C09 = [
-    {'status': 'known', 'properties': ['C09'], 'match': {'_law': r'^rh-(inv|dir)-', 'reg': r'^pro-exact-eq$'},
-     'what': 'Rhumb(a, f<0, exact=true): nearly east-west courses within 10 degrees of the equator lose accuracy (DAuxLatitude::DE '
-             'near 90 degrees of the flipped angle): e.g. Rhumb(6378137,-1/298.257223563,true).Inverse(-0.026557987270237504,'
-             '-9.952174322001838,-0.026557987254301873,66.18058697799552) s12 off by 3.2 um (series variant: < 10 nm)'},
-    {'status': 'known', 'properties': ['C09'], 'match': {'_law': r'^rh-(inv|dir)-', 'reg': r'^vobl-exact$'},
-     'what': 'Rhumb(a, f>=0.9, exact=true): DAuxLatitude::DIsometric loses accuracy for very oblate ellipsoids (relative error of '
-             's12 1e-13 at f=0.9, 3e-11 at f=0.98), not the documented round-off level'},
-]
+# Known findings of C09 live in /verif/known_findings.json (matched on law-name prefix + input-class field 'reg' / 'tie').
 
 
 def to_rows(dense):
@@ -55,7 +45,6 @@ def to_rows(dense):
 
 def run(ctx):
     dense = not ctx.quick
-    ctx.known_db = list(ctx.known_db) + KNOWN_C09
     base = ('INIT Init\nNEXT Next\nCONSTANTS Part = "%s" NChunks = 32 Dense = %s\n'
             'INVARIANTS LiInv LdInv Emit\nCHECK_DEADLOCK FALSE\n')
     parts = [(p, base % (p, 'TRUE' if dense else 'FALSE')) for p in ('li', 'ld')]
